@@ -11,6 +11,8 @@ CONSTANTS
   Addrs = {"none", "4096"}
   Grows = {}
   Lates = TRUE
+  AddAligns = {}
+  OnlyTiled = FALSE
   NopKinds = {"1"}
   VariantSet = "items"
   Rotate = 2
